@@ -1,8 +1,11 @@
 import Lemmas.Funding
 import Model.Numscript.Spec
+import Lemmas.SpecFloor
 /-! C01 — script execution never overdraws an account.
-Stage 1 (this file, growing): the balance primitives every source is built from.  The full
-`no_overdraw` over `Spec.run` is stated in DESIGN.md §5 C01 and is being built on top of these. -/
+Part 1: the balance primitives every source is built from.  Part 2: `no_overdraw` over `Spec.run` — every
+posting of an accepted run leaves its (bounded, non-`world`) source account at or above minus the overdraft the
+script text grants it — with the invariant lemmas it is built from (`Lemmas/SpecFloor.lean`), and
+`short_sources_reject`. -/
 namespace C01
 open Num
 
@@ -71,5 +74,159 @@ theorem rejected_yields_nothing (P : Script) (req : Request) (store : Store) (e 
 
 /-! non-vacuity -/
 example : ∃ p b', withdrawAll ⟨fun _ _ => some 7⟩ "a" "USD" 3 = .ok (p, b') ∧ p.amt = 10 := ⟨_, _, rfl, rfl⟩
+
+/-! ## Part 2 — the floor over `Spec.run`
+
+`FloorOK g R₀ ps` (`Lemmas/SpecFloor.lean`): walk the postings `ps` in order with a running real balance
+(starting from `R₀`, every posting debits its source and credits its destination as it occurs); every posting `p`
+whose source is not `world` and whose overdraft is bounded (`g p.src p.asset = some gv`) satisfies
+`p.amt = 0 ∨ R p.src p.asset - p.amt ≥ -gv`.
+
+`grants env stmts x A` (`grantsOf` over the source occurrences `stmtOcc`): `none` if some occurrence of `x` as a
+source for `A` is the literal `@world` or `allowing unbounded overdraft`, else the largest overdraft among its
+occurrences (a bare occurrence counts 0). -/
+
+/-- **`no_overdraw`**: an accepted run never takes a bounded account below minus the overdraft the script grants
+it — at no point of the posting sequence, counting the credits the account receives on the way -/
+theorem no_overdraw {P : Script} {req : Request} {store : Store} {r : Result} (h : run P req store = .ok r) :
+    ∃ env, prepare P req store = .ok env ∧ FloorOK (grants env P.stmts) store.balance r.postings := by
+  obtain ⟨env, F, hp, he, hr⟩ := run_inv h
+  exact ⟨env, hp, by rw [hr]; exact evalStmts_floor he⟩
+
+/-- the same on the interpreter, for any environment -/
+theorem no_overdraw_stmts {env : VEnv} {store : Store} {stmts : List Stmt} {F : Full}
+    (h : evalStmts env stmts { st := { bal := initBal store (needed env stmts), postings := [] } } = .ok F) :
+    FloorOK (grants env stmts) store.balance F.st.postings := evalStmts_floor h
+
+/-- what `FloorOK` says about one posting in the middle of the sequence -/
+theorem floor_at {g : Acct → Asset → Option Int} {R : Acct → Asset → Int} {pre post : List Posting} {p : Posting}
+    (h : FloorOK g R (pre ++ p :: post)) (hw : p.src ≠ "world") {gv : Int} (hg : g p.src p.asset = some gv) :
+    p.amt = 0 ∨ -gv ≤ realBal R pre p.src p.asset - p.amt :=
+  (((FloorOK_append g R pre (p :: post)).mp h).2).1 hw gv hg
+
+/-- every source occurrence is covered by `grants`: an unbounded one makes the account unbounded, a bounded
+one's overdraft is at most the grant -/
+theorem grants_cover (env : VEnv) (stmts : List Stmt) :
+    ∀ o ∈ stmts.flatMap (stmtOcc env), OccOK (grants env stmts) o := grantsOf_ok _
+
+/-! ### the invariant lemmas (each valuable on its own)
+
+`BInv c R b fl`: for every tracked, bounded, non-`world` (x, A): `R x A = T x A + saved x A + fl x A` and
+(`T + saved ≥ -bound` or nothing of `x` is in flight); `DInv` adds "the postings so far respect the floor". -/
+
+/-- `withdrawAll` with an overdraft within the bound keeps the invariant; the part it yields enters the flight -/
+theorem withdrawAll_keeps {c : Cx} {R : Acct → Asset → Int} {b b' : Bal} {a : Acct} {s : Asset} {o : Int} {p : Part}
+    {fl : Acct → Asset → Int} (h : withdrawAll b a s o = .ok (p, b'))
+    (hg : a ≠ "world" → ∀ gv, c.g a s = some gv → o ≤ gv) (hi : BInv c R b fl) :
+    BInv c R b' (fun x A => fl x A + flOf ⟨s, [p]⟩ x A) ∧ Good c ⟨s, [p]⟩ := withdrawAll_binv h hg hi
+
+/-- `withdrawAlways` on `world` or on an unbounded account keeps the invariant -/
+theorem withdrawAlways_keeps {c : Cx} {R : Acct → Asset → Int} {b b' : Bal} {w : Acct} {s : Asset} {n : Int} {p : Part}
+    {fl : Acct → Asset → Int} (h : withdrawAlways b w s n = .ok (p, b'))
+    (hu : w = "world" ∨ c.g w s = none) (hn : 0 ≤ n) (hi : BInv c R b fl) :
+    BInv c R b' (fun x A => fl x A + flOf ⟨s, [p]⟩ x A) ∧ Good c ⟨s, [p]⟩ := withdrawAlways_binv h hu hn hi
+
+/-- … and `withdrawAlways` is only ever applied to the fallback account of a source, which is always an
+occurrence that is the literal `@world` or carries `allowing unbounded overdraft` -/
+theorem fallback_only_unbounded {env : VEnv} {asset : Asset} {s : Source} {b b' : Bal} {f : Fund} {w : Acct}
+    (h : evalSource env asset s b = .ok (f, some w, b')) :
+    ∃ o ∈ sourceOcc env asset s, o.acct = w ∧ o.asset = f.asset ∧ o.od = none :=
+  evalSource_fb env asset s b b' f (some w) h w rfl
+
+/-- `repay` keeps the invariant; what is repaid leaves the flight -/
+theorem repay_keeps {c : Cx} {R : Acct → Asset → Int} {s : Asset} (r : Parts) (b : Bal) (fl : Acct → Asset → Int)
+    (hg : Good c ⟨s, r⟩) (hi : BInv c R b fl) : BInv c R (repay b s r) (fun x A => fl x A - flOf ⟨s, r⟩ x A) :=
+  repay_binv r b fl hg hi
+
+/-- `take` / `takeMax` / `concat` (through `assemble`) / `reverse` only move amounts between fundings -/
+theorem funding_frame (a : Asset) (p : Parts) (n : Int) (x : Acct) (A : Asset) :
+    flOf ⟨a, (takeMax p n).1⟩ x A + flOf ⟨a, (takeMax p n).2⟩ x A = flOf ⟨a, p⟩ x A ∧
+    (∀ t r, take p n = some (t, r) → flOf ⟨a, t⟩ x A + flOf ⟨a, r⟩ x A = flOf ⟨a, p⟩ x A) ∧
+    flOf ⟨a, p.reverse⟩ x A = flOf ⟨a, p⟩ x A ∧
+    (∀ k rem r, assemble [k, ⟨a, rem⟩] = .ok r → flOf r x A = flOf k x A + flOf ⟨a, rem⟩ x A) :=
+  ⟨flOf_takeMax a p n x A, fun _ _ h => flOf_take h x A, flOf_reverse a p x A, fun _ _ _ h => flOf_pair h x A⟩
+
+/-- **`emit_floor`**: `OP_SEND` of a funding that is (part of what is) in flight: every posting it writes
+respects the floor, the invariant is kept, the funding has left the flight -/
+theorem emit_floor {c : Cx} {bal0 : Acct → Asset → Int} {d : Acct} {A : Asset} (ps : Parts) (st : St)
+    (fl : Acct → Asset → Int) (hi : DInv c bal0 st fl) (hg : Good c ⟨A, ps⟩)
+    (hle : ∀ x A', flOf ⟨A, ps⟩ x A' ≤ fl x A') :
+    DInv c bal0 (emit d ⟨A, ps⟩ st) (fun x A' => fl x A' - flOf ⟨A, ps⟩ x A') := emit_dinv ps st fl hi hg hle
+
+/-- a source keeps the invariant: what it provides enters the flight, is non-negative and tracked -/
+theorem source_keeps (c : Cx) (R : Acct → Asset → Int) {env : VEnv} {asset : Asset} {s : Source} {b b' : Bal}
+    {f : Fund} {fb : Option Acct} {fl : Acct → Asset → Int} (h : evalSource env asset s b = .ok (f, fb, b'))
+    (hocc : ∀ o ∈ sourceOcc env asset s, OccOK c.g o) (hi : BInv c R b fl) :
+    BInv c R b' (fun x A => fl x A + flOf f x A) ∧ Good c f ∧ (∀ w, fb = some w → c.g w f.asset = none) :=
+  evalSource_binv c R env asset s b b' f fb fl h hocc hi
+
+/-- a destination keeps the invariant (floor of its postings included): what it receives leaves the flight,
+what it hands back enters it -/
+theorem dest_keeps (c : Cx) (bal0 : Acct → Asset → Int) {env : VEnv} {d : Dest} {f r : Fund} {st st' : St}
+    (h : evalDest env d f st = .ok (r, st')) (hg : Good c f) (fl : Acct → Asset → Int) (hi : DInv c bal0 st fl)
+    (hle : ∀ x A, flOf f x A ≤ fl x A) :
+    DInv c bal0 st' (fun x A => fl x A - flOf f x A + flOf r x A) ∧ Good c r ∧ r.asset = f.asset :=
+  let ⟨h1, h2, h3⟩ := evalDest_dinv c bal0 env d f r st st' h hg
+  ⟨h1 fl hi hle, h2, h3⟩
+
+/-- a whole send keeps the invariant, whatever else is in flight -/
+theorem send_keeps {c : Cx} {bal0 : Acct → Asset → Int} {env : VEnv} {amt : SendAmt} {src : VSource} {d : Dest}
+    {st st' : St} {fl : Acct → Asset → Int} (h : evalSend env amt src d st = .ok st')
+    (hocc : ∀ o ∈ sendOcc env amt src, OccOK c.g o) (hfl : ∀ x A, 0 ≤ fl x A) (hi : DInv c bal0 st fl) :
+    DInv c bal0 st' fl := evalSend_dinv h hocc hfl hi
+
+/-- every statement (the two `save` forms included) keeps the between-statements invariant -/
+theorem stmt_keeps {g : Acct → Asset → Option Int} {K : Acct → Asset → Prop} {bal0 : Acct → Asset → Int}
+    {env : VEnv} {s : Stmt} {F F' : Full} (h : evalStmt env s F = .ok F')
+    (hocc : ∀ o ∈ stmtOcc env s, OccOK g o) (hi : SInv g K bal0 F.st) : SInv g K bal0 F'.st :=
+  evalStmt_sinv h hocc hi
+
+/-! ### sources that cannot cover the amount -/
+
+/-- a bounded source (no fallback account) whose funding holds less than the amount: `insufficient funds` -/
+theorem short_source_insufficient {f : Fund} {ma : Asset} {mn : Int} (b : Bal) (hf : NonNeg f.parts)
+    (ha : f.asset = ma) (hlt : total f.parts < mn) : takeFromSource none f ma mn b = .error .insufficient :=
+  takeFromSource_short b hf ha hlt
+
+/-- **`short_sources_reject`**: if, at some send of the script, the (bounded) sources provide less than the
+amount, the whole run is rejected with `insufficient_funds` — no posting, no metadata -/
+theorem short_sources_reject {P : Script} {req : Request} {store : Store} {env : VEnv}
+    {pre post : List Stmt} {e : Expr} {s : Source} {d : Dest} {F : Full} {a ma : Asset} {mn : Int} {f : Fund} {b1 : Bal}
+    (hp : prepare P req store = .ok env) (hc : checkBalanceVars env P.vars = .ok ())
+    (hst : P.stmts = pre ++ .send (.mon e) (.src s) d :: post)
+    (hpre : evalStmts env pre { st := { bal := initBal store (needed env P.stmts), postings := [] } } = .ok F)
+    (hl : leftAsset env e = .ok a) (hs : evalSource env a s F.st.bal = .ok (f, none, b1))
+    (hm : evalMon env e = .ok (ma, mn)) (ha : f.asset = ma) (hlt : total f.parts < mn) :
+    run P req store = .error .insufficient := by
+  apply run_error hp hc
+  have hsend : evalStmt env (.send (.mon e) (.src s) d) F = .error .insufficient := by
+    simp only [evalStmt, evalSend_short hl hs hm ha hlt]
+  have := evalStmts_error_at (post := post) pre _ F hpre hsend
+  rw [← hst] at this
+  exact this
+
+/-! non-vacuity -/
+
+/-- `send [USD 10] (source = @a allowing overdraft up to [USD 5]  destination = @b)` with 7 on `a` -/
+def exScript : Script :=
+  { vars := [],
+    stmts := [.send (.mon (.mon (.asset "USD") 10))
+      (.src (.acct (.acct "a") (.upTo (.mon (.asset "USD") 5)))) (.acct (.acct "b"))] }
+def exStore : Store := { balance := fun _ _ => 7, accountMeta := fun _ _ => none }
+
+example : ∃ r, run exScript ⟨[], []⟩ exStore = .ok r ∧ r.postings = [⟨"a", "b", 10, "USD"⟩] := ⟨_, rfl, rfl⟩
+/-- the grant the text gives `a` is 5, `b` (never a source) gets 0, and the floor holds: 7 - 10 ≥ -5 -/
+example : grants [] exScript.stmts "a" "USD" = some 5 := by decide
+example : FloorOK (grants [] exScript.stmts) exStore.balance [⟨"a", "b", 10, "USD"⟩] := by
+  have h : grants [] exScript.stmts "a" "USD" = some 5 := by decide
+  simp [FloorOK, h, exStore]
+/-- `FloorOK` is not vacuous: with a grant of 2 the same posting violates it -/
+example : ¬ FloorOK (fun _ _ => some 2) exStore.balance [⟨"a", "b", 10, "USD"⟩] := by
+  simp [FloorOK, exStore]
+/-- with only 3 on the account the same script is rejected (3 + 5 < 10) -/
+example : run exScript ⟨[], []⟩ { exStore with balance := fun _ _ => 3 } = .error .insufficient := rfl
+/-- the world literal is an unbounded occurrence -/
+example : grants [] [.send (.mon (.mon (.asset "USD") 10)) (.src (.acct (.acct "world") .none)) (.acct (.acct "b"))]
+    "world" "USD" = none := by decide
 
 end C01
